@@ -755,8 +755,18 @@ def impl(case):
 
 
 def impl_session(case):
+    import asyncio
     import mysensors
-    gw = mysensors.BaseSyncGateway(FakeTransport(), protocol_version=case["version"])
+    # the asyncio flavour has its own update_fw (image loaded in an executor): every other session uses it
+    is_async = core.case_hash([case["version"], case["nodes"], len(case["ops"])])[-1] in "02468ace"
+    cls = mysensors.BaseAsyncGateway if is_async else mysensors.BaseSyncGateway
+    gw = cls(FakeTransport(), protocol_version=case["version"])
+
+    def update_fw(*a):
+        if is_async:
+            asyncio.run(gw.update_fw(*a))
+        else:
+            gw.update_fw(*a)
     for n in case["nodes"]:
         gw.logic(f"{n};255;0;0;17;{case['version']}\n")
     obs = []
@@ -764,10 +774,10 @@ def impl_session(case):
         try:
             if op["op"] == "update":
                 if op.get("img") is None:
-                    gw.update_fw(op["nids"], op["t"], op["v"])
+                    update_fw(op["nids"], op["t"], op["v"])
                 elif op.get("via") == "file":
                     path = write_text("s%d.hex" % k, ihex_write(bytes.fromhex(op["img"]), op["reclen"], op["upper"]))
-                    gw.update_fw(op["nids"], op["t"], op["v"], path)
+                    update_fw(op["nids"], op["t"], op["v"], path)
                 else:
                     gw.tasks.ota.make_update(op["nids"], op["t"], op["v"], bytes.fromhex(op["img"]))
                 obs.append(["state", project(gw.tasks.ota)])
